@@ -8,10 +8,10 @@
 From Coq Require Import String.
 From SLX Require Import Base Word256 PackingArith gen.Constants gen.ValueSig gen.OpcodeTable gen.PassOrder gen.RulesSig
   SymVal Micro gen.OpcodeSem Disasm VM Fold PassesSlots PassesPacking TypeExpr Merge VectorMap DisjointSet Register Rules
-  Unify AbiT Layout Abi Pipeline.
+  Unify AbiT Layout Abi PolledLoop Pipeline.
 From Coq Require Import Permutation.
 From SLX Require Import TcCases gen.FoldTable.
-From SLX.proofs Require Import LayoutProofs VmBounds FoldProofs RegisterProofs RulesProofs AbiProofs UnifyProofs PassesSlotsProofs PassesPackingProofs TcStagesProofs.
+From SLX.proofs Require Import PipelinePolls LayoutProofs VmBounds FoldProofs RegisterProofs RulesProofs AbiProofs UnifyProofs PassesSlotsProofs PassesPackingProofs TcStagesProofs.
 Open Scope N_scope.
 
 (* what translator step T10 (tools/tr_pipeline.py) read from the source on this run is what Pipeline.v composes:
@@ -45,15 +45,43 @@ Qed.
 (* what a run that returned a layout went through *)
 Inductive layout_run (keccak : list byte -> N) (table : list (N * N)) (mode : order_mode) (fu : fuels) (bytes : list byte)
     (cfg : config) (l : list entry) : Prop :=
-| mk_layout_run (code : list instr) (m : vm) (lifted : list sv) (polls : N) (st : tcs) (s : dsu iset) (n : N)
+| mk_layout_run (code : list instr) (m : vm) (lifted : list sv) (st : tcs) (s : dsu iset) (n : N)
     (lr_dis : try_from bytes = Ok code)
     (lr_vm : run_p constant_fold (f_vm fu) (init_vm code cfg) = RDone m)
     (lr_noerr : v_errors m = [])
-    (lr_lift : lift_loop keccak table cfg (unique (all_values mode (v_stored m))) 0 (v_polls m) [] false = LOk lifted polls)
+    (lr_lift : Forall2 (fun v v' => lift_value keccak table v = Ok v') (unique (all_values mode (v_stored m))) lifted)
     (lr_infer : infer_values (pipeline_rules mode) (tc_values mode (Register.values (snd (assign_vars lifted))))
                   (snd (assign_vars lifted)) = Ok st)
     (lr_layout : build_layout abi_nested_add abi_nested_fit (env_of_forest s n) (S (N.to_nat n))
                    (tc_values mode (Register.values st ++ synthetic_values (next st) n)) [] = Ok l).
+
+(* the unmonitored type checker returned a layout *)
+Lemma analyze_plain_inv keccak table mode fu stored l :
+  analyze_plain keccak table mode fu stored = PLayout l ->
+  exists lifted st s n,
+    Forall2 (fun v v' => lift_value keccak table v = Ok v') (unique (all_values mode stored)) lifted /\
+    infer_values (pipeline_rules mode) (tc_values mode (Register.values (snd (assign_vars lifted)))) (snd (assign_vars lifted)) = Ok st /\
+    build_layout abi_nested_add abi_nested_fit (env_of_forest s n) (S (N.to_nat n))
+      (tc_values mode (Register.values st ++ synthetic_values (next st) n)) [] = Ok l.
+Proof.
+  unfold analyze_plain. cbv zeta.
+  destruct (fold_e (lift_body keccak table) (unique (all_values mode stored)) ([], false)) as [[acc failed]|e] eqn:E1.
+  2: { intros ->. destruct (unique (all_values mode stored)); discriminate E1 || idtac.
+       exfalso. revert E1. generalize (@nil sv, false). generalize (s :: l0).
+       induction l1 as [|v r IH]; intros st0; cbn [fold_e]; [discriminate|].
+       unfold lift_body at 1. destruct (lift_value keccak table v); try discriminate; apply IH. }
+  destruct failed; [discriminate|].
+  destruct (fold_lift keccak table _ _ _ _ _ E1 eq_refl) as (_ & ls & Ea & F). rewrite app_nil_r in Ea. subst acc. rewrite rev_involutive.
+  rewrite fold_reg. fold (assign_vars ls). rewrite fold_infer.
+  destruct (infer_values (pipeline_rules mode) (tc_values mode (Register.values (snd (assign_vars ls)))) (snd (assign_vars ls))) as [st'|e|p] eqn:Ei;
+    try discriminate.
+  destruct (ures_res (unify (f_rounds fu) (orders_of mode) (tstate_of st'))) as [[s n]|e] eqn:Eu.
+  2: { intros ->. destruct (unify (f_rounds fu) (orders_of mode) (tstate_of st')) as [a|[]|p]; discriminate. }
+  rewrite fold_layout.
+  destruct (build_layout abi_nested_add abi_nested_fit (env_of_forest s n) (S (N.to_nat n))
+              (tc_values mode (Register.values st' ++ synthetic_values (next st') n)) []) as [l'|e|p] eqn:Eb; try discriminate.
+  intros [= <-]. exists ls, st', s, n. auto.
+Qed.
 
 Lemma analyze_layout_inv keccak table mode fu bytes cfg l :
   analyze_model_fuel keccak table mode fu bytes cfg = PLayout l -> layout_run keccak table mode fu bytes cfg l.
@@ -63,23 +91,10 @@ Proof.
   destruct (poll_every cfg =? 0); cbn [t_result no_trace]; try discriminate.
   destruct (run_p constant_fold (f_vm fu) (init_vm code cfg)) as [m|ip m|m] eqn:Ev; cbn [t_result no_trace]; try discriminate.
   destruct (v_errors m) eqn:Ee; cbn [t_result no_trace]; try discriminate.
-  unfold analyze_tc.
-  destruct (lift_loop keccak table cfg (unique (all_values mode (v_stored m))) 0 (v_polls m) [] false) as [lifted polls1| | |s] eqn:El;
-    cbn [t_result stop_trace]; try discriminate.
-  destruct (polled cfg (length lifted) 0 polls1) as [i|polls2]; cbn [t_result stop_trace]; try discriminate.
-  cbv zeta.
-  destruct (polled cfg (length (tc_values mode (Register.values (snd (assign_vars lifted))))) 0 polls2) as [i|polls3] eqn:Ep3.
-  - destruct (infer_values (pipeline_rules mode) (firstn i (tc_values mode (Register.values (snd (assign_vars lifted))))) (snd (assign_vars lifted)));
-      cbn [t_result stop_trace]; discriminate.
-  - destruct (infer_values (pipeline_rules mode) (tc_values mode (Register.values (snd (assign_vars lifted)))) (snd (assign_vars lifted))) as [st'|e|s] eqn:Ei;
-      cbn [t_result stop_trace]; try discriminate.
-    destruct (stop_at cfg); cbn [t_result]; try discriminate.
-    destruct (unify (f_rounds fu) (orders_of mode) (tstate_of st')) as [[s n]|[]|p]; cbn [t_result]; try discriminate.
-    destruct (build_layout abi_nested_add abi_nested_fit (env_of_forest s n) (S (N.to_nat n))
-                (tc_values mode (Register.values st' ++ synthetic_values (next st') n)) []) as [l'|e|p] eqn:Eb;
-      cbn [t_result]; try discriminate.
-    intros [= <-].
-    exact (mk_layout_run keccak table mode fu bytes cfg l' code m lifted polls1 st' s n Ed Ev Ee El Ei Eb).
+  intros H. pose proof (analyze_tc_spec keccak table mode fu cfg (v_polls m) (order_determined (v_stored m)) (v_stored m)) as G.
+  cbv zeta in G. destruct G as ([G|(st & G)] & _); rewrite G in H; [|discriminate].
+  destruct (analyze_plain_inv _ _ _ _ _ _ H) as (lifted & st' & s & n & F & Ei & Eb).
+  exact (mk_layout_run keccak table mode fu bytes cfg l code m lifted st' s n Ed Ev Ee F Ei Eb).
 Qed.
 
 (* ================================================================================================ (a) sorted *)
@@ -104,7 +119,7 @@ Qed.
 Theorem pipeline_layout_sorted_lemma keccak table mode fu bytes cfg l :
   analyze_model_fuel keccak table mode fu bytes cfg = PLayout l -> sorted_io l.
 Proof.
-  intros H. destruct (analyze_layout_inv _ _ _ _ _ _ _ H) as [code m lifted polls st s n _ _ _ _ _ Hb].
+  intros H. destruct (analyze_layout_inv _ _ _ _ _ _ _ H) as [code m lifted st s n _ _ _ _ _ Hb].
   eapply build_layout_sorted; [constructor|exact Hb].
 Qed.
 
@@ -665,38 +680,17 @@ Lemma unique_sub l x : In x (unique l) -> In x l.
 Proof. apply unique_from_sub. Qed.
 
 (* ================================================================================================ the lift loop *)
-Lemma lift_loop_ok keccak table cfg : forall vals counter polls acc failed lifted polls',
-  lift_loop keccak table cfg vals counter polls acc failed = LOk lifted polls' ->
-  failed = false /\ exists ls, lifted = rev acc ++ ls /\ Forall2 (fun v v' => lift_value keccak table v = Ok v') vals ls.
+Lemma forall2_in {A B} (R : A -> B -> Prop) l l' x : Forall2 R l l' -> In x l -> exists y, In y l' /\ R x y.
 Proof.
-  induction vals as [|v r IH]; intros counter polls acc failed lifted polls'; cbn [lift_loop].
-  - destruct failed; [discriminate|]. intros [= <- <-]. split; [reflexivity|]. exists []. rewrite app_nil_r. split; [reflexivity|constructor].
-  - destruct (poll_now cfg counter polls) as [stop p1]. destruct stop; [discriminate|].
-    destruct (lift_value keccak table v) as [v'|e|s] eqn:E; [| |discriminate].
-    + intros H. destruct (IH _ _ _ _ _ _ H) as (F & ls & -> & H2). split; [exact F|]. exists (v' :: ls). split.
-      * cbn [rev]. rewrite <- app_assoc. reflexivity.
-      * constructor; assumption.
-    + intros H. destruct (IH _ _ _ _ _ _ H) as (F & _). discriminate.
+  induction 1 as [|a b l l' Hab F IH]; [intros []|]. intros [<-|H].
+  - exists b. split; [left; reflexivity|exact Hab].
+  - destruct (IH H) as (y & H1 & H2). exists y. split; [right; exact H1|exact H2].
 Qed.
-
-Lemma lift_loop_in keccak table cfg vals polls lifted polls' v :
-  lift_loop keccak table cfg vals 0 polls [] false = LOk lifted polls' -> In v vals ->
-  exists v', In v' lifted /\ lift_value keccak table v = Ok v'.
+Lemma forall2_from {A B} (R : A -> B -> Prop) l l' y : Forall2 R l l' -> In y l' -> exists x, In x l /\ R x y.
 Proof.
-  intros H Hv. destruct (lift_loop_ok _ _ _ _ _ _ _ _ _ _ H) as (_ & ls & -> & F). cbn [rev app].
-  clear H. induction F as [|x y l l' Hxy F IH]; [contradiction|]. destruct Hv as [<-|Hv].
-  - exists y. split; [left; reflexivity|exact Hxy].
-  - destruct (IH Hv) as (v' & H1 & H2). exists v'. split; [right; exact H1|exact H2].
-Qed.
-
-Lemma lift_loop_from keccak table cfg vals polls lifted polls' v' :
-  lift_loop keccak table cfg vals 0 polls [] false = LOk lifted polls' -> In v' lifted ->
-  exists v, In v vals /\ lift_value keccak table v = Ok v'.
-Proof.
-  intros H Hv. destruct (lift_loop_ok _ _ _ _ _ _ _ _ _ _ H) as (_ & ls & -> & F). cbn [rev app] in Hv.
-  clear H. induction F as [|x y l l' Hxy F IH]; [contradiction|]. destruct Hv as [<-|Hv].
-  - exists x. split; [left; reflexivity|exact Hxy].
-  - destruct (IH Hv) as (v & H1 & H2). exists v. split; [right; exact H1|exact H2].
+  induction 1 as [|a b l l' Hab F IH]; [intros []|]. intros [<-|H].
+  - exists a. split; [left; reflexivity|exact Hab].
+  - destruct (IH H) as (x & H1 & H2). exists x. split; [right; exact H1|exact H2].
 Qed.
 
 (* the nine passes, spelled out in the default order *)
@@ -787,7 +781,7 @@ Theorem pipeline_literal_key_row_lemma keccak table mode fu bytes cfg l code m s
   exists off ty, In (c, off, ty) l.
 Proof.
   intros H Hd Hr Hs Hk Hl.
-  destruct (analyze_layout_inv _ _ _ _ _ _ _ H) as [code' m' lifted polls st' s n Ed Ev Ee El Ei Eb].
+  destruct (analyze_layout_inv _ _ _ _ _ _ _ H) as [code' m' lifted st' s n Ed Ev Ee El Ei Eb].
   rewrite Hd in Ed. inversion Ed; subst code'. rewrite Hr in Ev. inversion Ev; subst m'.
   assert (Hg : g <> []).
   { eapply stored_generations_nonempty; [exact Hr|exact Hs|apply in_or_app; left; exact Hk]. }
@@ -795,7 +789,7 @@ Proof.
   assert (Hin : In (Node T_StorageWrite [] [Known c; v0]) (unique (all_values mode (v_stored m)))).
   { apply unique_in. eapply all_values_in; [exact Hs|]. apply state_values_storage.
     eapply stores_as_values_in; [apply in_or_app; left; exact Hk|left; reflexivity]. }
-  destruct (lift_loop_in _ _ _ _ _ _ _ _ El Hin) as (v' & Hv' & Elv).
+  destruct (forall2_in _ _ _ _ El Hin) as (v' & Hv' & Elv).
   destruct (lift_value_literal_key _ _ _ _ _ Hl Elv) as (x' & ->).
   (* registration gives the slot a typed copy; the rules keep it; the layout loop gives it a row *)
   pose proof (register_covers_subterms_lemma lifted) as C. destruct (assign_vars lifted) as [ts st0] eqn:Ea. cbn [snd] in Ei.
@@ -1032,11 +1026,11 @@ Theorem pipeline_storage_free_empty_lemma keccak table mode fu bytes cfg l :
   analyze_model_fuel keccak table mode fu bytes cfg = PLayout l -> l = [].
 Proof.
   intros Hcode H.
-  destruct (analyze_layout_inv _ _ _ _ _ _ _ H) as [code m lifted polls st' s n Ed Ev Ee El Ei Eb].
+  destruct (analyze_layout_inv _ _ _ _ _ _ _ H) as [code m lifted st' s n Ed Ev Ee El Ei Eb].
   destruct (Hcode code Ed) as [H1 H2].
   pose proof (storage_free_values mode code cfg (f_vm fu) m H1 H2 Ev) as Cv. rewrite Forall_forall in Cv.
   assert (Cl : forall v s0, In v lifted -> In s0 (subterms v) -> sv_tag s0 <> T_StorageSlot).
-  { intros v s0 Hv Hs. destruct (lift_loop_from _ _ _ _ _ _ _ _ El Hv) as (u & Hu & Eu).
+  { intros v s0 Hv Hs. destruct (forall2_from _ _ _ _ El Hv) as (u & Hu & Eu).
     exact (clean_no_slot v (lift_value_clean _ _ _ _ (Cv u Hu) Eu) s0 Hs). }
   assert (N0 : no_slot_exprs (snd (assign_vars lifted))).
   { unfold assign_vars. apply reg_list_no_slot; [exact Cl|]. intros w x []. }
@@ -1073,20 +1067,14 @@ Lemma lift_value_agree keccak t t' v :
   (forall w, In w (all_consts v) -> PassesSlots.lookup_in t w = PassesSlots.lookup_in t' w) -> lift_value keccak t v = lift_value keccak t' v.
 Proof. intros H. rewrite !lift_value_unfold, (hashed_slots_agree t t' v H). reflexivity. Qed.
 
-Lemma lift_loop_agree keccak t t' cfg : forall vals counter polls acc failed,
-  (forall v w, In v vals -> In w (all_consts v) -> PassesSlots.lookup_in t w = PassesSlots.lookup_in t' w) ->
-  lift_loop keccak t cfg vals counter polls acc failed = lift_loop keccak t' cfg vals counter polls acc failed.
-Proof.
-  induction vals as [|v r IH]; intros counter polls acc failed H; cbn [lift_loop]; [reflexivity|].
-  destruct (poll_now cfg counter polls) as [stop p1]. destruct stop; [reflexivity|].
-  rewrite (lift_value_agree keccak t t' v (fun w Hw => H v w (or_introl eq_refl) Hw)).
-  destruct (lift_value keccak t' v); try reflexivity; apply IH; intros v0 w Hv Hw; apply (H v0 w (or_intror Hv) Hw).
-Qed.
-
-Theorem analyze_tc_table_agree keccak t t' mode fu cfg det stored polls :
+Theorem analyze_tc_table_agree keccak t t' mode fu lim det stored polls :
   (forall v w, In v (unique (all_values mode stored)) -> In w (all_consts v) -> PassesSlots.lookup_in t w = PassesSlots.lookup_in t' w) ->
-  analyze_tc keccak t mode fu cfg det stored polls = analyze_tc keccak t' mode fu cfg det stored polls.
-Proof. intros H. unfold analyze_tc. rewrite (lift_loop_agree keccak t t' cfg _ 0 polls [] false H). reflexivity. Qed.
+  analyze_tc keccak t mode fu lim det stored polls = analyze_tc keccak t' mode fu lim det stored polls.
+Proof.
+  intros H. unfold analyze_tc. cbv zeta.
+  rewrite (ploop_e_ext (lift_body keccak t) (lift_body keccak t') (poll_every lim) (unique (all_values mode stored))); [reflexivity|].
+  intros v st Hv. unfold lift_body. rewrite (lift_value_agree keccak t t' v (fun w Hw => H v w Hv Hw)). reflexivity.
+Qed.
 
 (* ---- the index: a bucket holds the entries whose hash has the same low bits, in table order ---- *)
 Fixpoint eqlow (d : nat) (k k' : N) : bool :=
@@ -1194,8 +1182,8 @@ Qed.
 
 (* hence: what check_case evaluates is the model run with the implementation's full table *)
 Theorem trace_of_uses_full_table table mode bytes cfg o real d :
-  fst (trace_of (build_index table) (PC mode bytes cfg o real d)) = analyze_trace (oracle_keccak o) table mode default_fuels bytes cfg.
+  fst (trace_of (build_index table) (PC mode bytes cfg o real d)) = analyze_trace (oracle_keccak o) table mode check_fuels bytes cfg.
 Proof.
-  unfold trace_of, phase_of, trace_from, analyze_trace. destruct (vm_phase_of default_fuels bytes cfg) as [r|stored polls]; cbn [fst snd]; [reflexivity|].
+  unfold trace_of, phase_of, trace_from, analyze_trace. destruct (vm_phase_of check_fuels bytes cfg) as [r polls|stored polls]; cbn [fst snd]; [reflexivity|].
   apply analyze_tc_table_agree. intros v w Hv Hw. exact (relevant_table_agrees table _ v w Hv Hw).
 Qed.
